@@ -70,7 +70,8 @@ func c11WriteModule(root string) error {
 			return err
 		}
 		os.WriteFile(filepath.Join(dir, "other_test.go"),
-			[]byte(strings.NewReplacer("{{PKG}}", pkg, "{{FN}}", "callOther", "{{WHERE}}", "helper in another _test.go file").Replace(calls)), 0o644)
+			[]byte(strings.NewReplacer("{{PKG}}", pkg, "{{FN}}", "callOther", "{{WHERE}}", "helper in another _test.go file").Replace(calls)+
+				"\n// viaOther reaches the non-test helper callPlain through a frame of this test file.\nfunc viaOther(t *testing.T, cb c11lib.Combo) { callPlain(t, cb) }\n"), 0o644)
 		os.WriteFile(filepath.Join(dir, "plain.go"),
 			[]byte(strings.NewReplacer("{{PKG}}", pkg, "{{FN}}", "callPlain", "{{WHERE}}", "helper in a non-test file of the package").Replace(calls)), 0o644)
 	}
@@ -94,7 +95,7 @@ func c11Expected(pkgDir, absDir string, r c11Result) string {
 	if base == "" {
 		if standalone {
 			base = strings.ReplaceAll(r.TestName, "/", "_")
-		} else if cb.Shape == "helper-other-testfile" {
+		} else if cb.Shape == "helper-other-testfile" || cb.Shape == "helper-nontest-via-other-testfile" {
 			base = "other_test"
 		} else {
 			base = "c11_test"
